@@ -52,6 +52,7 @@ def run(prog, R, tier="quick", only_rule=None):
     c06.c06l(prog, R, rid="C01.o")
     from rules.props import c02 as _c02
     _c02.c02f(prog, R, rid="C01.p")
+    _c02.c02a(prog, R, rid="C01.q")
 
 
 def c01a(prog, R):
